@@ -88,7 +88,8 @@ def table(ds, spec):
                 if metric in ("obs", "fcst"):
                     xs = [c[0] for c in cs]
                     if not xs:
-                        v = NAN
+                        # the count of nothing may be reported as 0 or as NaN
+                        v = (0.0, NAN) if (agg == "count") else NAN
                     else:
                         v = refmetrics.aggregate(agg or "mean", xs)
                 else:
@@ -102,7 +103,8 @@ def table(ds, spec):
         for col in cols:
             run = 0.0
             for i in range(nrows):
-                run += 0.0 if col[i] != col[i] else col[i]
+                ci_ = col[i][0] if isinstance(col[i], tuple) else col[i]
+                run += 0.0 if ci_ != ci_ else ci_
                 col[i] = run
     # descriptors
     if axis == "threshold":
@@ -173,7 +175,10 @@ def compare_table(got_header, got_rows, ref, sig=6, textfmt=False):
                     return "row %d descriptor %r is not a number (documented %r)" % (i, g[j], w)
         for k, w in enumerate(r["values"]):
             txt = g[nd + k].strip()
-            if w != w:
+            if isinstance(w, tuple):
+                if not any((x != x and txt.lower() == "nan") or (x == x and vutil.close_text_number(txt, x, sig)) for x in w):
+                    return "row %d column %d: %s, reference one of %r" % (i, k, txt, w)
+            elif w != w:
                 if txt.lower() not in ("nan", "inf", "-inf"):
                     return "row %d column %d: %s where the score is undefined" % (i, k, txt)
             elif not vutil.close_text_number(txt, w, sig):
